@@ -52,3 +52,29 @@ func TestC10FreeDoesNotTouchOtherProcess(t *testing.T) {
 		t.Errorf("process 1's freed page %#x is still mapped", p1)
 	}
 }
+
+// Remapping a buffer onto a unified (virtual multi-GPU) device takes the physical
+// pages from a member GPU; the page must be recorded on that member.
+func TestC10RemapOntoUnifiedDeviceRecordsOwningGPU(t *testing.T) {
+	pt := vm.NewPageTable(12)
+	a := NewMemoryAllocator(pt, 12).(*memoryAllocatorImpl)
+	var gpus []*Device
+	for id := 1; id <= 2; id++ {
+		dev := &Device{ID: id, Type: DeviceTypeGPU, MemState: NewDeviceMemoryState(12)}
+		dev.SetTotalMemSize(16 * 4096)
+		a.RegisterDevice(dev)
+		gpus = append(gpus, dev)
+	}
+	uni := &Device{ID: 3, Type: DeviceTypeUnifiedGPU, UnifiedGPUIDs: []int{1, 2}, ActualGPUs: gpus, MemState: NewDeviceMemoryState(12)}
+	a.RegisterDevice(uni)
+
+	ptr := a.Allocate(1, 2*4096, 1)
+	a.Remap(1, ptr, 2*4096, 3)
+	for i := uint64(0); i < 2; i++ {
+		page, _ := pt.Find(1, ptr+i*4096)
+		owner := a.devices[int(page.DeviceID)]
+		if !isPAddrOnDevice(page.PAddr, owner.MemState) {
+			t.Errorf("page %#x: physical address %#x is not inside the memory of device %d recorded for it", page.VAddr, page.PAddr, page.DeviceID)
+		}
+	}
+}
